@@ -5,7 +5,7 @@ CONSTANTS
   UseRuleSets = {"E1"}
   ScacheGCEvery = 1
   ProvGCEvery = 1
-  MaxTime = 2
+  MaxTime = 3
   Pick <- PickAll
   KnownGaps = {"F2a", "F2b", "F2c"}
   PutAlerts = {"S1", "S2", "B"}
@@ -13,7 +13,7 @@ CONSTANTS
   MuteQueries = {}
   StartModes = {"same"}
   EndOffs = {1, 2, 3}
-  Timeouts = {TRUE, FALSE}
+  Timeouts = {TRUE}
   QueueBound = 0
 VIEW View
 INVARIANTS InvRefinesOrKnown InvSound IndexInCache CacheComplete
